@@ -1,6 +1,7 @@
 import BctVerif.Lemmas.SignedNull
 import BctVerif.Lemmas.SignedTotal
 import BctVerif.Lemmas.SignedCorr
+import BctVerif.Lemmas.SignedPearson
 
 /-!
 # C06 — signed null models keep each node's positive/negative degree and all weights
@@ -111,6 +112,17 @@ theorem null_model_und_spec (W : AMat Int n) (binSwaps period : Nat) (orc : List
   rw [hW0, ← hWc]
   exact ⟨h1, h2, h3, hsW rfl⟩
 
+/-- every n ≥ 1, in particular n < 4: `null_model_dir_spec` / `null_model_und_spec` above hold for all n (they are not restricted to
+n ≥ 4); for n < 4 the binary stage is the identity, so the output has exactly the sign pattern of the diagonal-cleared input -/
+theorem null_model_small_n (und : Bool) (W : AMat Int n) (binSwaps period : Nat) (orc : List (List Nat)) (ds : List Nat)
+    (hn : n < 4) {o : NullOut n} (h : nullModel und W binSwaps period orc ds = .ok o) :
+    o.Wr = clearDiag W ∧ (und = false → SameSigns o.W0.toFun (clearDiag W).toFun) := by
+  have hr := nullModel_small und W binSwaps period orc ds hn h
+  refine ⟨hr, fun hu => ?_⟩
+  subst hu
+  have := (null_model_dir_spec W binSwaps period orc ds h).2
+  rwa [hr] at this
+
 /-- asymmetric input to the undirected null model is rejected (`BCTParamError`) -/
 theorem null_model_und_rejects (W : AMat Int n) (binSwaps period : Nat) (orc : List (List Nat)) (ds : List Nat)
     (h : isSymm W = false) : nullModel true W binSwaps period orc ds = .error .param := by
@@ -154,6 +166,35 @@ theorem cov_triple_formula (xs ys : List Int) :
        (xs.length : Int) * (ys.map fun y => y * y).sum - ys.sum * ys.sum) :=
   covTriple_eq xs ys
 
+/-- each correlation triple `(c, vx, vy)` the model prints obeys Cauchy–Schwarz: the two variance ingredients are
+non-negative and `c² ≤ vx·vy` (exact, in ℤ) -/
+theorem corr_cauchy_schwarz (W W0 : AMat Int n) :
+    ∀ t ∈ [(corrTriples W W0).rpi, (corrTriples W W0).rpo, (corrTriples W W0).rni, (corrTriples W W0).rno],
+      0 ≤ t.2.1 ∧ 0 ≤ t.2.2 ∧ t.1 ^ 2 ≤ t.2.1 * t.2.2 := by
+  intro t ht
+  simp only [corrTriples, inStrength, outStrength, List.mem_cons, List.mem_nil_iff, or_false] at ht
+  rcases ht with rfl | rfl | rfl | rfl <;>
+    (rw [covTriple_fin]; exact ⟨var_nonneg _, var_nonneg _, cov_sq_le _ _⟩)
+
+/-- Pearson's correlation of the input's and the output's ± strength sequences, `r = c / √(vx·vy)` over ℝ for the
+model's exact integers, lies in [−1, 1] (with the convention r = 0 where NumPy returns nan: a constant sequence) -/
+theorem corr_in_unit_interval (W W0 : AMat Int n) :
+    ∀ t ∈ [(corrTriples W W0).rpi, (corrTriples W W0).rpo, (corrTriples W W0).rni, (corrTriples W W0).rno],
+      -1 ≤ pearsonR t ∧ pearsonR t ≤ 1 := by
+  intro t ht
+  obtain ⟨h1, h2, h3⟩ := corr_cauchy_schwarz W W0 t ht
+  exact pearsonR_bounds t.1 t.2.1 t.2.2 h1 h2 h3
+
+/-- the real number compared with bct's output: `pearsonR (c, vx, vy) = c / √(vx·vy)` -/
+theorem pearsonR_def (c vx vy : Int) : pearsonR (c, vx, vy) = (c : ℝ) / Real.sqrt ((vx : ℝ) * (vy : ℝ)) := rfl
+
+/-- identical input and output strength sequences with non-zero variance give r = 1 -/
+theorem pearsonR_self (v : Int) (hv : 0 < v) : pearsonR (v, v, v) = 1 := by
+  unfold pearsonR
+  simp only
+  have h : (0 : ℝ) < (v : ℝ) := by exact_mod_cast hv
+  rw [Real.sqrt_mul_self h.le, div_self h.ne']
+
 /-- `Signed.posPart` / `Signed.negPart` are `W * (W > 0)` and `-W * (W < 0)` -/
 theorem pos_neg_part (x : Int) : Signed.posPart x = (if 0 < x then x else 0) ∧ Signed.negPart x = (if x < 0 then -x else 0) := ⟨rfl, rfl⟩
 
@@ -193,6 +234,11 @@ example : (corrTriples S0 S0).rpi = (4, 4, 4) ∧ (corrTriples S0 S0).rni = (36,
 -- three nodes: nothing to rewire, the dealing stage still runs (weights 2 and 5 of the positive cells are exchanged)
 example : (nullModel false (#v[#v[0, 2, -1], #v[5, 0, 0], #v[0, -3, 0]] : AMat Int 3) 5 1 [[1, 0], [0], [0, 1], [0]] [0, 1, 0, 0, 1, 0]).toOption.map (·.W0)
     = some #v[#v[0, 5, -1], #v[2, 0, 0], #v[0, -3, 0]] := by decide +kernel
+-- recorded real run: bct.null_model_dir_sign(W, bin_swaps=1, wei_freq=.5, seed=RandomState(12345)) on the 5-node network below
+example : (nullModel false (#v[#v[0, 3, -2, 0, 5], #v[1, 0, 0, -4, 0], #v[0, -6, 0, 2, 0], #v[7, 0, 0, 0, -1], #v[0, 2, -3, 0, 0]] : AMat Int 5) 1 2
+    [[2, 3, 1, 5, 4, 0], [2, 1, 0, 3], [0, 1], [1, 3, 0, 4, 2], [2, 0, 1], [0]]
+    [482, 485, 285, 129, 420, 425, 382, 357, 546, 541, 118, 369, 315, 105, 91, 374, 208, 267, 77, 81, 166, 263, 43, 231, 23, 29, 439, 287, 353, 36, 576, 387, 124, 143, 371, 337, 107, 389, 34, 309, 371, 72, 5, 226, 108, 261, 59, 83, 524, 398, 592, 155, 294, 344, 5, 586, 76, 524, 574, 297, 146, 594, 185, 58, 279, 405, 63, 512, 441, 398, 410, 227, 288, 259, 448, 518, 251, 236, 293, 456, 555, 318, 214, 577, 224, 121, 212, 121, 301, 116, 459, 402, 389, 393, 108, 125, 614, 321, 302, 409, 333, 264, 392, 146, 623, 32, 492, 608, 86, 69, 591, 610, 167, 242, 86, 245, 269, 340, 172, 261, 497, 126, 514, 472, 176, 419, 5, 307, 536, 621, 78, 83, 573, 94, 121, 228, 232, 537, 96, 225, 92, 574, 571, 242, 480, 37, 151, 360, 210, 605, 1, 537, 26, 312, 122, 396, 218, 444, 607, 505, 325, 586, 415, 170, 574, 383, 561, 249, 378, 316, 15, 610, 273, 140, 142, 256, 155, 39, 131, 510, 145, 492, 345, 174, 556, 418, 616, 336, 78, 406, 265, 412, 96, 464, 125, 444, 248, 243, 519, 77, 165, 482, 360, 261, 107, 225, 573, 433, 397, 433, 42, 176, 209, 533, 141, 354, 594, 525, 79, 228, 142, 44, 565, 407, 573, 556, 98, 345, 451, 520, 301, 45, 14, 392, 80, 189, 313, 290, 535, 475, 559, 620, 71, 362, 614, 500, 131, 307, 450, 218, 237, 542, 113, 211, 142, 592, 592, 480, 16, 230, 401, 132, 398, 417, 182, 368, 235, 161, 619, 389, 573, 88, 495, 595, 494, 51, 293, 42, 259, 313, 108, 1, 3, 4, 2, 5, 0, 2, 1, 0, 3, 0, 1, 0, 3, 4, 1, 2, 2, 0, 1, 0]).toOption.map (fun o => (o.W0, o.dsLeft, o.orcLeft))
+    = some (#v[#v[0, 5, -3, 2, 0], #v[1, 0, 0, 0, -1], #v[0, -6, 0, 0, 2], #v[0, 7, -2, 0, 0], #v[3, 0, 0, -4, 0]], 0, 0) := by decide +kernel
 example : nullModel true R0 0 0 [] [] = .error .param := null_model_und_rejects R0 0 0 [] [] (by decide)
 
 end Bct.C06
